@@ -223,7 +223,12 @@ def assemble_unit(unit_name, unit_dir, cfg, extracted, prelude_files, canary=Fal
         A.add(extra_prelude_text, {"k": "gen"})
     secs = []
     for ov in cfg.get("overlays", ["overlay.vrs"]):
-        secs += parse_overlay(os.path.join(unit_dir, ov))
+        these = parse_overlay(os.path.join(unit_dir, ov))
+        if ov.startswith(".."):
+            # contract file of another unit: only the contracts of functions used here apply
+            for s_ in these:
+                s_.optional = True
+        secs += these
     by = {}
     for s_ in secs:
         by.setdefault((s_.kind, tuple(s_.args[:1])), []).append(s_)
@@ -362,6 +367,7 @@ def assemble_unit(unit_name, unit_dir, cfg, extracted, prelude_files, canary=Fal
                 ind2 = out[fs][0][: len(out[fs][0]) - len(out[fs][0].lstrip())]
                 out.insert(fs, (ind2 + "#[verifier::external_body]", {"k": "gen"}))
                 A.functions[cur_fn]["contract_only"] = True
+                A.functions[cur_fn]["contract"] = False
                 idx += 1
                 continue
             m = re.match(r'^vx_closure_head!\((\w+), (\d+)\);$', stripped)
@@ -399,7 +405,7 @@ def assemble_unit(unit_name, unit_dir, cfg, extracted, prelude_files, canary=Fal
                 hsec = find("at", f_, "fn_end")
                 if hsec:
                     emit_ghost(out, hsec, indent, f_)
-                if canary:
+                if canary and not A.functions.get(f_, {}).get("contract_only"):
                     canary_n[0] += 1
                     out.append((indent + f"assert(!vx_canary({canary_n[0]})); // CANARY {f_}:fn_end", {"k": "canary", "fn": f_, "id": f"{f_}:fn_end"}))
                 idx += 1
@@ -423,6 +429,10 @@ def assemble_unit(unit_name, unit_dir, cfg, extracted, prelude_files, canary=Fal
                 pending_after = []
             idx += 1
         base = len(A.lines)
+        for pl in item.get("prefix_lines", []):
+            A.lines.append(pl)
+            A.origin.append({"k": "gen"})
+            base += 1
         for t, o in out:
             A.lines.append(t)
             A.origin.append(o)
@@ -447,6 +457,8 @@ def assemble_unit(unit_name, unit_dir, cfg, extracted, prelude_files, canary=Fal
         if o.get("k") == "clause" and o.get("first") and o["kw"] in ("requires", "ensures", "invariant", "invariant_except_break", "decreases"):
             if o["kw"] == "requires":
                 continue
+            if A.functions.get(o["fn"], {}).get("contract_only"):
+                continue  # assumed here, proved in the unit that owns the function
             oid = f"{unit_name}/{o['fn']}/{o['name']}"
             n_ = 2
             while oid in seen:
